@@ -1028,6 +1028,20 @@ func registerDBModels() {
 		cv := x.cvOfVal(v)
 		return cv, nil
 	}
+	// addr(s[i]): the pointer &s[i] (element of a slice)
+	contractBuiltins["addr"] = func(x *Exec, env *CEnv, n *CCall) (*CV, error) {
+		if len(n.Args) != 1 {
+			return nil, fmt.Errorf("addr(e)")
+		}
+		v, err := x.eval(env, n.Args[0])
+		if err != nil {
+			return nil, err
+		}
+		if v.Addr == nil || v.Addr.Kind != LElem || v.Ty == nil {
+			return nil, fmt.Errorf("addr: only elements of slices have an address here")
+		}
+		return &CV{T: x.ptrTerm(v.Addr), Ty: types.NewPointer(v.Ty)}, nil
+	}
 	contractBuiltins["fetched"] = func(x *Exec, env *CEnv, n *CCall) (*CV, error) {
 		v, err := x.eval(env, n.Args[0])
 		if err != nil {
